@@ -227,3 +227,26 @@ def handler_catches(eng, fn: FunctionInfo, h: ast.ExceptHandler) -> List[str]:
         else:
             out.append(norm(e))
     return out
+
+
+def find_locals(eng, fn: FunctionInfo, pred: Callable[[str], bool]) -> List[str]:
+    """names of the locals of fn with an assignment whose right-hand side (single-assignment locals inlined) satisfies pred;
+    lets a rule speak about "the local that holds X" instead of hard-coding today's variable name"""
+    from .c05 import _resolve_local
+    out = []
+    for name, defs in eng.flow._defs(fn).items():
+        for d in defs:
+            if d[0] == "assign" and isinstance(d[1], ast.AST) and not d[2]:
+                try:
+                    if pred(_resolve_local(eng, fn, d[1])):
+                        out.append(name)
+                        break
+                except Exception:
+                    continue
+    return out
+
+
+def find_local(eng, fn: FunctionInfo, pred: Callable[[str], bool], default: str = "\0none") -> str:
+    r = find_locals(eng, fn, pred)
+    return r[0] if r else default
+
